@@ -263,7 +263,7 @@ class Rewriter(ast.NodeTransformer):
             kw_ok = all(k.arg is not None for k in node.keywords)
             if f.attr == "join" and len(node.args) == 1 and not node.keywords:
                 return self._call(node, "join", [f.value, node.args[0]])
-            if f.attr in ("match", "fullmatch", "search") and kw_ok:
+            if f.attr in ("match", "fullmatch", "search", "sub", "subn", "findall", "finditer") and kw_ok:
                 return self._call(
                     node,
                     "re_call",
@@ -399,6 +399,12 @@ class Loader(importlib.machinery.SourceFileLoader):
             if hasattr(v, "cache_info") and hasattr(v, "__wrapped__") and not hasattr(v, "_sx_cached"):
                 if getattr(v, "__module__", None) == module.__name__:
                     d[k] = _cache_bypass(v)
+        import struct as _struct
+
+        if d.get("struct") is _struct:
+            from . import stubs
+
+            d["struct"] = stubs.SxStruct
         # names imported from datetime etc. stay; per-check substitutions go via EXTRA_GLOBALS
         for k, v in EXTRA_GLOBALS.get(module.__name__ + ":post", {}).items():
             d[k] = v
